@@ -306,6 +306,11 @@ def r20_3(chk: Check):
     okv = all(_variants(exk, v, cands) for v in vals) and any(_variants(exk, v, [plain]) for v in vals)
     chk.ob("R20.3", ft.where(), "V_T = T^4/(2 pi^2) [sum_particles n_B Re Jb + sum_particles n_F Re Jf] (real parts = element 0, sum over the particle axis) "
            "on every returning path (up to the documented |.| options for the imaginary part)", okv, str(vals[0])[:200], key="thermal-sum")
+    # the option that takes |m^2| must do so where it matters: on every path taken under ABS_ARGUMENT the integrals are evaluated at |m^2|/T^2
+    abs_paths = [p for p in ps if any(g.polarity and "ABS_ARGUMENT" in g.text() for g in p.guards)]
+    oka_ = bool(abs_paths) and all(_variants(exk, p.value, [absm, sp.Abs(absm)]) for p in abs_paths)
+    chk.ob("R20.3", ft.where(), "under EImaginaryOption.ABS_ARGUMENT the thermal integrals are evaluated at |m^2| / T^2 (the replacement happens before "
+           "the arguments are formed)", oka_, f"{len(abs_paths)} path(s) under ABS_ARGUMENT", key="abs-argument-path")
     # which spectrum goes through which integral, and with which argument
     JB, JF = sp.Function("integrals.Jb"), sp.Function("integrals.Jf")
     apps = {JB: set(), JF: set()}
@@ -523,12 +528,21 @@ def r20_5(chk: Check) -> None:
                            "not passed (the class default is True)" if a is None else n(a), key=f"direct|{fi.qual}|{c.func.id}")
     if ncons < 2:
         raise AnchorMissing("PotentialTools: the constructions of JbIntegral / JfIntegral not found")
-    chk.floor("R20.5", 4)
+    # (c) the interpolant of a table is the plain (not-a-knot) cubic spline through all its rows: a boundary condition imposed on the spline
+    #     (clamped / natural ends) changes the values and the derivative near the ends of the shipped tables
+    fint = S.func("interpolatableFunction:InterpolatableFunction._interpolate")
+    chk.touch(fint.name)
+    sp_calls = [c for c in calls_in(fint.node, "CubicSpline")]
+    if not sp_calls:
+        raise AnchorMissing("InterpolatableFunction._interpolate: the CubicSpline construction not found")
+    for c in sp_calls:
+        bc = kwarg(c, "bc_type", 3)
+        okb = bc is None or eqx(bc, "'not-a-knot'", Ctx(S, fint))
+        chk.ob("R20.5", fint.where(c), "the table interpolant is the not-a-knot cubic spline (no boundary condition imposed at the table ends)", okb,
+               n(bc) if bc is not None else "default", key="spline-bc")
+    chk.floor("R20.5", 5)
 
 
 def rules(chk: Check) -> None:
-    r20_1(chk)
-    r20_5(chk)
-    r20_2(chk)
-    r20_3(chk)
-    r20_4(chk)
+    for grp in (r20_1, r20_5, r20_2, r20_3, r20_4):
+        chk.stage(grp, chk)
